@@ -40,6 +40,7 @@ const (
 	gHeaders
 	gEnvelope
 	gPooled
+	gEncoding
 	gFixed
 )
 
@@ -73,7 +74,7 @@ func shapeGroups(tier string) []shapeGroup {
 }
 
 func (check) Groups(tier string, seed int64) []string {
-	g := []string{"bool-byte", "i16", "i32", "i64", "double", "strings", "headers", "envelope", "pooled-objects"}
+	g := []string{"bool-byte", "i16", "i32", "i64", "double", "strings", "headers", "envelope", "pooled-objects", "binary-encoding"}
 	for _, sg := range shapeGroups(tier) {
 		g = append(g, sg.name)
 	}
@@ -316,6 +317,8 @@ func (check) Enumerate(tier string, seed int64, group int, yield func(core.Case)
 		enumEnvelopes(tier, yield)
 	case gPooled:
 		enumPooled(yield)
+	case gEncoding:
+		enumEncoding(yield)
 	default:
 		sgs := shapeGroups(tier)
 		sg := sgs[group-gFixed]
@@ -989,6 +992,135 @@ func enumPooled(yield func(core.Case) bool) {
 					return r
 				}}
 				if !yield(c) {
+					return
+				}
+			}
+		}
+	}
+}
+
+// ---------- BinaryEncoding: the slice-level twin of the protocol writer / reader ----------
+
+// dirty returns a buffer holding prefix whose spare capacity (spare bytes) is filled with 0xAA, as a buffer
+// reused through buf[:0] after an earlier message is.
+func dirty(prefix []byte, spare int) []byte {
+	a := make([]byte, len(prefix)+spare)
+	for i := range a {
+		a[i] = 0xAA
+	}
+	copy(a, prefix)
+	return a[:len(prefix)]
+}
+
+func enumEncoding(yield func(core.Case) bool) {
+	enc := thrift.BinaryEncoding{}
+	// scalars into a dirty slice of exactly their size: bytes as the reference, read back by the Decode twin
+	type sc struct {
+		name string
+		v    *tbin.Val
+		put  func(b []byte)
+		get  func(b []byte) interface{}
+		want interface{}
+	}
+	var scs []sc
+	for _, b := range []bool{false, true} {
+		b := b
+		scs = append(scs, sc{"EncodeBool", tbin.Bool(b), func(x []byte) { enc.EncodeBool(x, b) }, func(x []byte) interface{} { return enc.DecodeBool(x) }, b})
+	}
+	for i := 0; i < 256; i++ {
+		x := byte(i)
+		scs = append(scs, sc{"EncodeByte", tbin.Byte(int8(x)), func(b []byte) { enc.EncodeByte(b, x) }, func(b []byte) interface{} { return enc.DecodeByte(b) }, x})
+	}
+	for _, v := range i64Family() {
+		v := v
+		if int64(int16(v)) == v {
+			scs = append(scs, sc{"EncodeInt16", tbin.I16v(int16(v)), func(b []byte) { enc.EncodeInt16(b, int16(v)) }, func(b []byte) interface{} { return enc.DecodeInt16(b) }, int16(v)})
+		}
+		if int64(int32(v)) == v {
+			scs = append(scs, sc{"EncodeInt32", tbin.I32v(int32(v)), func(b []byte) { enc.EncodeInt32(b, int32(v)) }, func(b []byte) interface{} { return enc.DecodeInt32(b) }, int32(v)})
+		}
+		scs = append(scs, sc{"EncodeInt64", tbin.I64v(v), func(b []byte) { enc.EncodeInt64(b, v) }, func(b []byte) interface{} { return enc.DecodeInt64(b) }, v})
+	}
+	for _, f := range f64Family() {
+		f := f
+		scs = append(scs, sc{"EncodeDouble", tbin.Double(f), func(b []byte) { enc.EncodeDouble(b, f) }, func(b []byte) interface{} { return math.Float64bits(enc.DecodeDouble(b)) }, math.Float64bits(f)})
+	}
+	for _, str := range strFamily() {
+		str := str
+		if len(str) > 300 {
+			continue
+		}
+		scs = append(scs, sc{"EncodeString", tbin.Str(string(str)), func(b []byte) { enc.EncodeString(b, string(str)) }, func(b []byte) interface{} { return enc.DecodeString(b) }, string(str)})
+		scs = append(scs, sc{"EncodeBinary", tbin.Bin(str), func(b []byte) { enc.EncodeBinary(b, str) }, func(b []byte) interface{} { return enc.DecodeBytes(b) }, append([]byte{}, str...)})
+	}
+	for _, c := range scs {
+		c := c
+		if !yield(mk("enc:"+c.name, c.v.String(), func(r *core.Result) {
+			ref := tbin.Bytes(c.v)
+			b := dirty(nil, len(ref))[:len(ref)]
+			c.put(b)
+			if !bytes.Equal(b, ref) {
+				r.Add("enc:"+c.name+"|bytes-differ", "%s: got %x want %x", c.v, b, ref)
+			}
+			if got := c.get(append([]byte{}, ref...)); !tutil.AnyEqual(got, c.want) {
+				r.Add("enc:"+c.name+"|readback-differs", "%s: got %#v want %#v", c.v, got, c.want)
+			}
+		})) {
+			return
+		}
+	}
+	// EncodeEmpty: every type (x element / key types for containers) appended to a fresh buffer, to a buffer with
+	// a prefix and to reused buffers with 0..16 dirty spare bytes: prefix kept, appended bytes = the encoding of
+	// the zero value, nothing else
+	all := []thrift.Type{thrift.BOOL, thrift.BYTE, thrift.I16, thrift.I32, thrift.I64, thrift.DOUBLE, thrift.STRING, thrift.STRUCT, thrift.MAP, thrift.SET, thrift.LIST}
+	zero := func(t, et, kt thrift.Type) []byte {
+		switch t {
+		case thrift.BOOL, thrift.BYTE, thrift.STRUCT:
+			return []byte{0}
+		case thrift.I16:
+			return []byte{0, 0}
+		case thrift.I32, thrift.STRING:
+			return []byte{0, 0, 0, 0}
+		case thrift.I64, thrift.DOUBLE:
+			return make([]byte, 8)
+		case thrift.MAP:
+			return []byte{byte(kt), byte(et), 0, 0, 0, 0}
+		}
+		return []byte{byte(et), 0, 0, 0, 0}
+	}
+	for _, t := range all {
+		ets, kts := []thrift.Type{0}, []thrift.Type{0}
+		if t == thrift.LIST || t == thrift.SET || t == thrift.MAP {
+			ets = all
+		}
+		if t == thrift.MAP {
+			kts = all
+		}
+		for _, et := range ets {
+			for _, kt := range kts {
+				t, et, kt := t, et, kt
+				if !yield(mk("enc:EncodeEmpty", fmt.Sprintf("%v<%v,%v>", t, kt, et), func(r *core.Result) {
+					want := zero(t, et, kt)
+					for _, prefix := range [][]byte{nil, {}, {0x0b, 1, 2}} {
+						for spare := -1; spare <= 16; spare++ {
+							var in []byte
+							if spare >= 0 {
+								in = dirty(prefix, spare)
+							} else {
+								in = prefix // fresh: no spare capacity at all (nil stays nil)
+							}
+							out, err := enc.EncodeEmpty(t, et, kt, in)
+							if err != nil {
+								r.Add("enc:EncodeEmpty|error", "type %v prefix %x spare %d: %v", t, prefix, spare, err)
+								return
+							}
+							if !bytes.Equal(out, append(append([]byte{}, prefix...), want...)) {
+								r.Add("enc:EncodeEmpty|bytes-differ", "type %v<%v,%v> appended to %x (spare capacity %d, dirty): got %x want %x%x", t, kt, et, prefix, spare, out, prefix, want)
+								return
+							}
+						}
+					}
+				})) {
 					return
 				}
 			}
